@@ -528,3 +528,17 @@ def c02_tiling(chain, dmin, dmax, qd, bh):
     pieces = t.qqs
     why = A.check_tiling(chain, list(pieces), dmin, dmax, bh)
     return why is not None, f'{text!r} config {cfg}: pieces {pieces}: {why}'
+
+
+# ------------------------------------------------------------------ C16
+@replay('c16_time')
+def c16_time(text, config):
+    from props.c16_ref import timed_parse, THRESHOLD, MAXLEN
+    times = []
+    for _ in range(2):
+        dt = timed_parse(text, config, timeout=10.0)
+        times.append(dt)
+        if dt is not None and dt <= THRESHOLD:
+            return False, f'{len(text)} chars parsed in {dt:.2f} s'
+    shown = ['>10' if t is None else round(t, 2) for t in times]
+    return len(text) <= MAXLEN + 60, f'{len(text)}-character description {text[:80]!r}... took {shown} s (threshold {THRESHOLD} s)'
